@@ -775,6 +775,19 @@ def flatten(prog, root_defp, max_depth=4, max_blocks=6000, stop=None):
                     pre.append({"k": "assign", "p": [lo + 1 + ai, []], "rv": {"k": "use", "op": a}, "sp": t.get("sp")})
         cont = t["t"]
         dest = t["dest"]
+        thread_to = None
+        if poll and cont is not None:
+            # the spliced coroutine always completes (its own awaits fall through): the caller's `match poll { Ready => .., Pending => yield }`
+            # is threaded to the Ready arm, otherwise the Pending arm would loop back into the spliced body
+            ct = blocks[cont]["t"]
+            if ct and ct["k"] == "switch":
+                dp = op_place(ct["d"])
+                is_discr_of_dest = dp is not None and any(s_["k"] == "assign" and s_["p"][0] == dp[0] and s_["rv"]["k"] == "discr" and s_["rv"]["p"][0] == dest[0]
+                                                         for s_ in blocks[cont]["s"])
+                ready = [tg for (v, tg) in ct["arms"] if v == 0]
+                if is_discr_of_dest and ready:
+                    thread_to = ready[0]
+        ncb = len(cb.blocks)
         for j, sb in enumerate(cb.blocks):
             st = [_ren_stmt(s, lo) for s in sb["s"]]
             tt = sb["t"]
@@ -784,7 +797,7 @@ def flatten(prog, root_defp, max_depth=4, max_blocks=6000, stop=None):
                                                                  "ops": [{"move": [lo, []]}]}, "sp": tt.get("sp")})
                 else:
                     st.append({"k": "assign", "p": dest, "rv": {"k": "use", "op": {"move": [lo, []]}}, "sp": tt.get("sp")})
-                nt = {"k": "goto", "t": cont, "sp": tt.get("sp")} if cont is not None else {"k": "unreachable"}
+                nt = {"k": "goto", "t": (bo + ncb if thread_to is not None else cont), "sp": tt.get("sp")} if cont is not None else {"k": "unreachable"}
             else:
                 nt = _ren_term(tt, lo, bo)
             blocks.append({"s": st, "t": nt, "cleanup": sb.get("cleanup", False)})
@@ -792,6 +805,12 @@ def flatten(prog, root_defp, max_depth=4, max_blocks=6000, stop=None):
             origin_blk.append(j)
             callsite.append(blk)
             chain[bo + j] = chain[blk] + (cb.defp,)
+        if thread_to is not None:
+            blocks.append({"s": list(blocks[cont]["s"]), "t": {"k": "goto", "t": thread_to}, "cleanup": False})
+            origin.append(origin[cont])
+            origin_blk.append(origin_blk[cont])
+            callsite.append(callsite[cont])
+            chain[bo + ncb] = chain[cont] if cont in chain else chain[blk]
         blocks[blk] = {"s": blocks[blk]["s"] + pre, "t": {"k": "goto", "t": bo, "sp": t.get("sp"), "inlined_call": t}, "cleanup": blocks[blk].get("cleanup", False)}
         inlined.append((blk, cb.defp))
     j2 = dict(root.j)
